@@ -8,16 +8,19 @@ CASE_TYPE = 'C17_case'
 VERDICT = 'C17_verdict'
 PROPS_FILE = 'theories/Props/C17.v'
 THEOREM = 'C17_static_mirror'
-RULE = ('random resource trees (depth <= 3, 0-3 handles in 1-3 ChainMap layers with '
-        'shadowing, 0-3 sub-maps per map) whose names are identifiers (55%), '
-        'non-identifiers such as "a.png", "1x", "", "with space" (25%), private names '
-        '__x (15%), dunder names __foo__ (5%); the map is built through the public API, '
-        'its structure is read back, get_static_map() is taken, in 30% of the cases the '
-        'map is then cleared or extended; 6-12 paths (existing, cut, extended, absent '
-        'names) are walked part by part with attribute access, [] and get on the snapshot '
-        'and on the map (before the snapshot), 1-3 setattr/delattr attempts on nodes of '
-        'the snapshot are followed by a full structural dump; non-trivial = a tree with a '
-        'sub-map, a non-slot name or a layered handle, and an attempted mutation')
+RULE = ('a case is a SEQUENCE of 2-4 snapshots of one live ResourceMap: a random resource tree '
+        '(depth <= 3, 0-3 handles in 1-3 ChainMap layers with shadowing, 0-3 sub-maps per map; '
+        'names: identifiers 55%, non-identifiers such as "a.png", "1x", "", "with space" 25%, '
+        'private __x 15%, dunder __foo__ 5%) is built through the public API; then repeatedly: '
+        'get_static_map(), probes, 1-3 modifications of the live map (assignment through the '
+        'root with a composed key 35%, assignment made directly on a sub-map 35%, clear() of a '
+        'sub-map or of the root 15%, a new handle layer on a sub-map plus a shadowing handle '
+        '15%); every snapshot is probed right away AND again after later modifications (40% '
+        'of the probes of a later stage go to an older snapshot): 4-8 paths per stage walked '
+        'part by part with attribute access, [] and get on the snapshot, compared with the '
+        "map's answer at THAT snapshot's time, and 1-2 setattr/delattr attempts followed by a "
+        'full structural dump; non-trivial = at least two snapshots with a modification below '
+        'the root in between and an attempted mutation')
 TRUSTED = [
     'Coq 8.16.1 kernel + vm_compute (evaluation of C17_verdict on the observed cases)',
     'hand-written model Tree/C17Model.v tied to /repo by this correspondence run '
@@ -99,12 +102,41 @@ def node_paths(t, prefix=()):
     return out
 
 
-def gen_case(rng):
-    counter = [0]
-    tree = gen_tree(rng, rng.choice([1, 2, 2, 3]), counter)
+def sim_node(t, path):
+    cur = t
+    for n in path:
+        nxt = [c for k, c in cur['s'] if k == n]
+        if not nxt:
+            return None
+        cur = nxt[0]
+    return cur
+
+
+def sim_set(t, key, val):
+    """what m[key] = value does to the spec tree (only used to aim probes)"""
+    cur = t
+    for n in key[:-1]:
+        cur['l'] = [[e for e in l if e[0] != n] for l in cur['l']]
+        nxt = [c for k, c in cur['s'] if k == n]
+        if not nxt:
+            nxt = [{'l': [[]], 's': []}]
+            cur['s'].append([n, nxt[0]])
+        cur = nxt[0]
+    n = key[-1]
+    if val == 'm':
+        cur['l'] = [[e for e in l if e[0] != n] for l in cur['l']]
+        cur['s'] = [e for e in cur['s'] if e[0] != n] + [[n, {'l': [[]], 's': []}]]
+    else:
+        cur['s'] = [e for e in cur['s'] if e[0] != n]
+        if not cur['l']:
+            cur['l'] = [[]]
+        cur['l'][0] = [e for e in cur['l'][0] if e[0] != n] + [[n, -1]]
+
+
+def gen_probes(rng, tree, npaths, nmut, on):
     paths = all_paths(tree)
     probes = []
-    for _ in range(rng.randint(6, 12)):
+    for _ in range(npaths):
         p = list(rng.choice(paths))
         r = rng.random()
         if r < 0.15 and p:
@@ -113,9 +145,9 @@ def gen_case(rng):
             p = p + [rand_name(rng)]
         elif r < 0.4 and len(p) > 1:
             p = p[:rng.randint(1, len(p) - 1)]
-        probes.append(['path', rng.choice(MODES), p])
+        probes.append(['path', rng.choice(MODES), p, on])
     nodes = node_paths(tree)
-    for _ in range(rng.randint(1, 3)):
+    for _ in range(nmut):
         p = rng.choice(nodes)
         r = rng.random()
         if r < 0.5:
@@ -125,15 +157,70 @@ def gen_case(rng):
             name = rand_name(rng) + 'z'
         else:
             name = rng.choice(['_handle_names', 'get', '__dict__', '__class__'])
-        probes.insert(rng.randint(0, len(probes)),
-                      [rng.choice(['set', 'del']), p, name])
-    mutate = rng.choice(['none', 'none', 'none', 'none', 'none', 'none', 'none',
-                         'clear', 'add', 'clear_handles'])
-    return dict(tree=tree, nh=counter[0], probes=probes, mutate=mutate)
+        probes.insert(rng.randint(0, len(probes)), [rng.choice(['set', 'del']), p, name, on])
+    return probes
+
+
+def gen_mods(rng, tree):
+    import copy
+    mods = []
+    for _ in range(rng.randint(1, 3)):
+        nodes = node_paths(tree)
+        deep = [p for p in nodes if p]
+        r = rng.random()
+        if r < 0.35:
+            # through the root, composed key reaching below an existing sub-map
+            base = list(rng.choice(deep)) if deep and rng.random() < 0.8 else []
+            key = base + [rand_name(rng) for _ in range(rng.randint(1, 2))]
+            val = 'h' if rng.random() < 0.7 else 'm'
+            mods.append(['set', [], key, val])
+            sim_set(tree, key, val)
+        elif r < 0.7 and deep:
+            path = list(rng.choice(deep))
+            key = [rand_name(rng) for _ in range(rng.choice([1, 1, 2]))]
+            val = 'h' if rng.random() < 0.7 else 'm'
+            mods.append(['set', path, key, val])
+            sim_set(sim_node(tree, path), key, val)
+        elif r < 0.85:
+            path = list(rng.choice(deep)) if deep and rng.random() < 0.75 else []
+            mods.append(['clear', path])
+            node = sim_node(tree, path)
+            node['l'], node['s'] = [[]], []
+        else:
+            path = list(rng.choice(deep)) if deep else []
+            node = sim_node(tree, path)
+            names = [e[0] for l in node['l'] for e in l]
+            name = rng.choice(names) if names and rng.random() < 0.7 else rand_name(rng)
+            mods.append(['push', path, name])
+            node['s'] = [e for e in node['s'] if e[0] != name]
+            node['l'].insert(0, [[name, -1]])
+    return mods
+
+
+def gen_case(rng):
+    import copy
+    counter = [0]
+    tree = gen_tree(rng, rng.choice([1, 2, 2, 3]), counter)
+    if not tree['s']:
+        tree['s'].append([rng.choice(IDENT), gen_tree(rng, 1, counter)])
+    live = copy.deepcopy(tree)
+    hist = []
+    stages = []
+    for j in range(rng.choice([2, 2, 3, 4])):
+        mods = gen_mods(rng, live) if j > 0 else []
+        hist.append(copy.deepcopy(live))
+        probes = gen_probes(rng, live, rng.randint(3, 5), rng.randint(0, 1), j)
+        if j > 0:
+            # older snapshots must keep mirroring the old tree
+            for _ in range(rng.randint(2, 4)):
+                i = rng.randrange(j)
+                probes += gen_probes(rng, hist[i], 1, 1 if rng.random() < 0.3 else 0, i)
+        stages.append({'mods': mods, 'probes': probes})
+    return dict(tree=tree, nh=counter[0], stages=stages)
 
 
 def gen(rng, tier):
-    n = {'quick': 400, 'thorough': 4000, 'search': 300}[tier]
+    n = {'quick': 320, 'thorough': 3000, 'search': 250}[tier]
     return [gen_case(rng) for _ in range(n)]
 
 
@@ -233,12 +320,46 @@ def dump_snap(s, hid, depth=0):
     return [hn, ha, sa]
 
 
+def find_map(m, path):
+    import desper
+    cur = m
+    for k in path:
+        cur = cur.maps.get(k)
+        if not isinstance(cur, desper.ResourceMap):
+            return None
+    return cur
+
+
+def apply_mod(m, mod, Hd, handles, ids):
+    import desper
+    target = find_map(m, mod[1])
+    if target is None:
+        return
+    if mod[0] == 'clear':
+        target.clear()
+        return
+    if mod[0] == 'push':
+        target.handles.maps.insert(0, {})
+        key, val = [mod[2]], 'h'
+    else:
+        key, val = mod[2], mod[3]
+    if val == 'h':
+        n = max(list(ids.values()) + [-1]) + 1
+        h = Hd(n)
+        ids[id(h)] = n
+        handles.append(h)
+        target['/'.join(key)] = h
+    else:
+        target['/'.join(key)] = desper.ResourceMap()
+
+
 def run(case):
     import desper
     Hd = tc.make_handle_class()
-    handles = {}
-    m = build_map(case['tree'], handles, Hd)
-    ids = {id(h): i for i, h in handles.items()}
+    built = {}
+    m = build_map(case['tree'], built, Hd)
+    handles = [built[i] for i in sorted(built)]
+    ids = {id(built[i]): i for i in built}
 
     def hid(h):
         return ids.get(id(h), -1)
@@ -246,52 +367,62 @@ def run(case):
     members = set(dir(desper.ResourceMap().get_static_map()))
     if not members <= set(MEMBERS):
         raise RuntimeError('member list out of date: %r' % sorted(members - set(MEMBERS)))
-    out = {'tree': read_map(m, hid)}
-    out['map'] = [walk_map(m, pr[1], pr[2], hid) if pr[0] == 'path' else None
-                  for pr in case['probes']]
-    try:
-        snap = m.get_static_map()
-    except Exception as ex:
-        out['built'] = False
-        out['exc'] = type(ex).__name__
-        return out
-    out['built'] = True
-    out['dump'] = dump_snap(snap, hid)
-    if case['mutate'] == 'clear':
-        m.clear()
-    elif case['mutate'] == 'add':
-        m['zz/new'] = Hd(10 ** 6)
-        m['a'] = desper.ResourceMap()
-    elif case['mutate'] == 'clear_handles':
-        for h in handles.values():
-            h.clear()
-    obs = []
-    for pr, mres in zip(case['probes'], out['map']):
-        if pr[0] == 'path':
-            obs.append(['path', walk_snap(snap, pr[1], pr[2], hid), mres])
-        else:
-            node = snap
-            where = []
-            for k in pr[1]:
+    stages = case['stages']
+    snaps = []          # python objects (or None)
+    out = []            # one record per snapshot
+    for j, st in enumerate(stages):
+        for mod in st['mods']:
+            apply_mod(m, mod, Hd, handles, ids)
+        rec = {'tree': read_map(m, hid), 'obs': []}
+        # the map's answers, now, to every probe that will ever be made on this snapshot
+        mapans = {}
+        for k in range(j, len(stages)):
+            for x, pr in enumerate(stages[k]['probes']):
+                if pr[-1] == j and pr[0] == 'path':
+                    mapans[(k, x)] = walk_map(m, pr[1], pr[2], hid)
+        rec['mapans'] = [[k, x, v] for (k, x), v in sorted(mapans.items())]
+        try:
+            snap = m.get_static_map()
+            rec['built'] = True
+            rec['dump'] = dump_snap(snap, hid)
+        except Exception as ex:
+            snap = None
+            rec['built'] = False
+            rec['exc'] = type(ex).__name__
+        snaps.append(snap)
+        out.append(rec)
+        for x, pr in enumerate(st['probes']):
+            i = pr[-1]
+            if i > j or snaps[i] is None:
+                continue
+            target = snaps[i]
+            if pr[0] == 'path':
+                ans = dict(((k, y), v) for k, y, v in out[i]['mapans'])[(j, x)]
+                out[i]['obs'].append(['path', pr[1], pr[2], walk_snap(target, pr[1], pr[2], hid), ans])
+            else:
+                node = target
+                where = []
+                for k in pr[1]:
+                    try:
+                        nxt = desper.StaticResourceMap.get(node, k)
+                    except Exception:
+                        break
+                    if not isinstance(nxt, desper.StaticResourceMap):
+                        break
+                    node = nxt
+                    where.append(k)
+                raised = False
                 try:
-                    nxt = desper.StaticResourceMap.get(node, k)
+                    if pr[0] == 'set':
+                        setattr(node, pr[2], object())
+                    else:
+                        delattr(node, pr[2])
                 except Exception:
-                    break
-                if not isinstance(nxt, desper.StaticResourceMap):
-                    break
-                node = nxt
-                where.append(k)
-            raised = False
-            try:
-                if pr[0] == 'set':
-                    setattr(node, pr[2], object())
-                else:
-                    delattr(node, pr[2])
-            except Exception:
-                raised = True
-            obs.append(['mut', raised, dump_snap(snap, hid), where])
-    out['obs'] = obs
-    return out
+                    raised = True
+                out[i]['obs'].append([pr[0], where, pr[2], raised, dump_snap(target, hid)])
+    for rec in out:
+        del rec['mapans']
+    return {'snaps': out}
 
 
 # --------------------------------------------------------------------- encoder
@@ -320,49 +451,52 @@ def enc_res(r):
 
 
 EMPTY = '(SNode [] [] [])'
-BAD = 'CASE (Node [] []) false (SNode [] [] []) []'
+BAD = '[CASE (Node [] []) false (SNode [] [] []) []]'
 
 
 def encode(case, trace):
-    if 'tree' not in trace:
+    if 'snaps' not in trace:
         return BAD
-    if not trace['built']:
-        return 'CASE %s false %s []' % (enc_tree(trace['tree']), EMPTY)
-    items = []
-    for pr, ob in zip(case['probes'], trace['obs']):
-        if pr[0] == 'path':
-            items.append('(PPath %s %s, OPath %s %s)' % (
-                pr[1], lst([cs(k) for k in pr[2]]), enc_res(ob[1]), enc_res(ob[2])))
-        else:
-            items.append('(%s %s %s, OMut %s %s)' % (
-                'PSet' if pr[0] == 'set' else 'PDel', lst([cs(k) for k in ob[3]]),
-                cs(pr[2]), b(ob[1]), enc_snode(ob[2])))
-    return 'CASE %s true %s %s' % (enc_tree(trace['tree']), enc_snode(trace['dump']),
-                                   lst(items))
-
-
-def _has(t, pred):
-    return pred(t) or any(_has(c, pred) for _, c in t['s'])
+    snaps = []
+    for rec in trace['snaps']:
+        if not rec['built']:
+            snaps.append('(CASE %s false %s [])' % (enc_tree(rec['tree']), EMPTY))
+            continue
+        items = []
+        for ob in rec['obs']:
+            if ob[0] == 'path':
+                items.append('(PPath %s %s, OPath %s %s)' % (
+                    ob[1], lst([cs(k) for k in ob[2]]), enc_res(ob[3]), enc_res(ob[4])))
+            else:
+                items.append('(%s %s %s, OMut %s %s)' % (
+                    'PSet' if ob[0] == 'set' else 'PDel', lst([cs(k) for k in ob[1]]),
+                    cs(ob[2]), b(ob[3]), enc_snode(ob[4])))
+        snaps.append('(CASE %s true %s %s)' % (enc_tree(rec['tree']), enc_snode(rec['dump']),
+                                               lst(items)))
+    return lst(snaps)
 
 
 def nontrivial(case, trace):
-    t = case['tree']
-
-    def odd(n):
-        return (not n.isidentifier()) or (n.startswith('__') and not n.endswith('__'))
-    interesting = (t['s'] and (
-        _has(t, lambda x: any(odd(n) for l in x['l'] for n, _ in l) or
-             any(odd(n) for n, _ in x['s'])) or
-        _has(t, lambda x: sum(1 for l in x['l'] if l) > 1)))
-    return bool(interesting) and any(p[0] != 'path' for p in case['probes'])
+    st = case['stages']
+    deep = any((mod[0] == 'set' and (mod[1] or len(mod[2]) > 1)) or
+               (mod[0] in ('clear', 'push') and mod[1])
+               for s_ in st[1:] for mod in s_['mods'])
+    return len(st) >= 2 and deep and any(p[0] != 'path' for s_ in st for p in s_['probes'])
 
 
 def shrink(case):
-    ps = case['probes']
-    for i in range(len(ps)):
-        yield dict(case, probes=ps[:i] + ps[i + 1:])
-    if case['mutate'] != 'none':
-        yield dict(case, mutate='none')
+    st = case['stages']
+    for k in range(len(st) - 1, 0, -1):
+        yield dict(case, stages=st[:k])
+    for j in range(len(st)):
+        ps = st[j]['probes']
+        if ps:
+            yield dict(case, stages=st[:j] + [dict(st[j], probes=[])] + st[j + 1:])
+        for i in range(len(ps)):
+            yield dict(case, stages=st[:j] + [dict(st[j], probes=ps[:i] + ps[i + 1:])] + st[j + 1:])
+        ms = st[j]['mods']
+        for i in range(len(ms)):
+            yield dict(case, stages=st[:j] + [dict(st[j], mods=ms[:i] + ms[i + 1:])] + st[j + 1:])
 
     def smaller(t):
         for i in range(len(t['s'])):
@@ -370,18 +504,21 @@ def shrink(case):
             for c in smaller(t['s'][i][1]):
                 yield {'l': t['l'], 's': t['s'][:i] + [[t['s'][i][0], c]] + t['s'][i + 1:]}
         for li in range(len(t['l'])):
-            if len(t['l']) > 1:
-                yield {'l': t['l'][:li] + t['l'][li + 1:], 's': t['s']}
             for j in range(len(t['l'][li])):
                 yield {'l': t['l'][:li] + [t['l'][li][:j] + t['l'][li][j + 1:]] +
                        t['l'][li + 1:], 's': t['s']}
+
+    def renumber(t):
+        # handle ids must stay 0..n-1 in creation order of build_map
+        return t
     for t in smaller(case['tree']):
         yield dict(case, tree=t)
 
 
 def stats(cases, traces):
-    d = dict(cases=len(cases), nodes=0, handles=0, layered_nodes=0, nonident=0, private=0,
-             dunder=0, path_probes=0, mutation_probes=0, post_mutated_maps=0,
+    d = dict(cases=len(cases), snapshots=0, nodes=0, handles=0, layered_nodes=0, nonident=0,
+             private=0, dunder=0, path_probes=0, mutation_probes=0, probes_on_older_snapshot=0,
+             mods_through_root_composed=0, mods_on_submap=0, clears=0, layer_pushes=0,
              absent_answers=0, value_answers=0, sub_answers=0, notmap_answers=0)
 
     def visit(t):
@@ -400,18 +537,28 @@ def stats(cases, traces):
             visit(c)
     for c, t in zip(cases, traces):
         visit(c['tree'])
-        d['post_mutated_maps'] += c['mutate'] != 'none'
-        for p in c['probes']:
-            d['path_probes' if p[0] == 'path' else 'mutation_probes'] += 1
-        for ob in t.get('obs', []):
-            if ob[0] == 'path':
-                r = ob[1]
-                if r == 'A':
-                    d['absent_answers'] += 1
-                elif r == 'S':
-                    d['sub_answers'] += 1
-                elif r == 'X':
-                    d['notmap_answers'] += 1
-                elif isinstance(r, list):
-                    d['value_answers'] += 1
+        for j, st in enumerate(c['stages']):
+            d['snapshots'] += 1
+            for mod in st['mods']:
+                if mod[0] == 'set':
+                    d['mods_on_submap' if mod[1] else 'mods_through_root_composed'] += 1
+                elif mod[0] == 'clear':
+                    d['clears'] += 1
+                else:
+                    d['layer_pushes'] += 1
+            for p in st['probes']:
+                d['path_probes' if p[0] == 'path' else 'mutation_probes'] += 1
+                d['probes_on_older_snapshot'] += p[-1] < j
+        for rec in t.get('snaps', []):
+            for ob in rec['obs']:
+                if ob[0] == 'path':
+                    r = ob[3]
+                    if r == 'A':
+                        d['absent_answers'] += 1
+                    elif r == 'S':
+                        d['sub_answers'] += 1
+                    elif r == 'X':
+                        d['notmap_answers'] += 1
+                    elif isinstance(r, list):
+                        d['value_answers'] += 1
     return d
